@@ -447,6 +447,152 @@ theorem run_wf (cfg : Cfg) (m : Mux) (ops : List Op) (h : m.WF) : (run cfg m ops
   | nil => exact h
   | cons op t ih => exact ih _ (step_wf cfg m op h)
 
+/-! ## Part D — what a delivery does to the mailboxes -/
+
+theorem aload_astore_same {β : Type} (k : Nat) (v : β) (l : List (Nat × β)) :
+    aload k (astore k v l) = some v := by
+  induction l with
+  | nil => simp [astore, aload]
+  | cons e t ih =>
+    obtain ⟨k', v'⟩ := e
+    by_cases h : k' = k
+    · simp [astore, aload, h]
+    · simp [astore, aload, h, ih]
+
+theorem aload_astore_other {β : Type} (k k' : Nat) (v : β) (l : List (Nat × β)) (hne : k ≠ k') :
+    aload k' (astore k v l) = aload k' l := by
+  induction l with
+  | nil => simp [astore, aload, hne]
+  | cons e t ih =>
+    obtain ⟨k'', v''⟩ := e
+    by_cases h : k'' = k
+    · subst h; simp [astore, aload, hne]
+    · by_cases h2 : k'' = k'
+      · subst h2; simp [astore, aload, h]
+      · simp [astore, aload, h, h2, ih]
+
+theorem aload_adelete_same {β : Type} (k : Nat) (l : List (Nat × β)) : aload k (adelete k l) = none := by
+  induction l with
+  | nil => rfl
+  | cons e t ih =>
+    obtain ⟨k', v'⟩ := e
+    by_cases h : k' = k
+    · simp [adelete, h] at ih ⊢; exact ih
+    · simp [adelete, h, aload] at ih ⊢; exact ih
+
+theorem aload_adelete_other {β : Type} (k k' : Nat) (l : List (Nat × β)) (hne : k ≠ k') :
+    aload k' (adelete k l) = aload k' l := by
+  induction l with
+  | nil => rfl
+  | cons e t ih =>
+    obtain ⟨k'', v''⟩ := e
+    by_cases h : k'' = k
+    · subst h
+      simp [adelete, aload, hne] at ih ⊢; exact ih
+    · by_cases h2 : k'' = k'
+      · subst h2; simp [adelete, h, aload]
+      · simp [adelete, h, aload, h2] at ih ⊢; exact ih
+
+theorem aload_eq_some_iff {β : Type} (k : Nat) (v : β) (l : List (Nat × β)) (h : keysNodup l) :
+    aload k l = some v ↔ (k, v) ∈ l := by
+  constructor
+  · exact aload_mem k l v
+  · intro hm
+    induction l with
+    | nil => cases hm
+    | cons e t ih =>
+      obtain ⟨k', v'⟩ := e
+      have hnd : (k' :: t.map (·.1)).Nodup := h
+      rw [List.nodup_cons] at hnd
+      simp only [List.mem_cons, Prod.mk.injEq] at hm
+      rcases hm with ⟨rfl, rfl⟩ | hm
+      · simp [aload]
+      · have hk : k' ≠ k := by
+          intro e; subst e
+          exact hnd.1 (List.mem_map.mpr ⟨(k', v), hm, rfl⟩)
+        simp only [aload, hk, if_false]
+        exact ih hnd.2 hm
+
+theorem aload_foldl_put (b : Bundle) (us : List Nat) (hnd : us.Nodup) (u : Nat) :
+    ∀ mb : List (Nat × List Bundle),
+      aload u (us.foldl (fun mb x => putMailbox mb x b) mb) =
+        if u ∈ us then some ((aload u mb).getD [] ++ [b]) else aload u mb := by
+  induction us with
+  | nil => intro mb; simp
+  | cons x t ih =>
+    intro mb
+    rw [List.nodup_cons] at hnd
+    simp only [List.foldl_cons]
+    rw [ih hnd.2]
+    by_cases hux : u = x
+    · subst hux
+      simp [hnd.1, putMailbox, aload_astore_same]
+    · have hxu : x ≠ u := fun e => hux e.symm
+      simp only [List.mem_cons, hux, false_or, putMailbox, aload_astore_other _ _ _ _ hxu]
+
+theorem deliverChildren_child (cfg : Cfg) (b : Bundle) (i : Nat) (l : List (Nat × Agent)) :
+    aload i (deliverChildren cfg b l).1 =
+      (aload i l).map (fun a =>
+        if bagContains (a.endpoints cfg) [b.dest] then (a.receive cfg i b).1 else a) := by
+  induction l with
+  | nil => rfl
+  | cons c t ih =>
+    obtain ⟨j, a⟩ := c
+    simp only [deliverChildren]
+    by_cases hj : j = i
+    · subst hj
+      split <;> simp_all [aload]
+    · split <;> simp_all [aload]
+
+/-- **The mailboxes after a delivery**: in every REST agent, exactly the clients registered for the
+bundle's destination have the bundle appended to their mailbox; every other mailbox and all
+registrations are unchanged. -/
+theorem deliver_mailbox (cfg : Cfg) (hall : cfg.rangeAll = true) (m : Mux) (hwf : m.WF) (b : Bundle)
+    (i : Nat) (ra : Rest) (h : m.child i = some (.rest ra)) :
+    ∃ ra', (m.deliver cfg b).1.child i = some (.rest ra') ∧ ra'.clients = ra.clients ∧
+      ∀ u, aload u ra'.mailbox =
+        if aload u ra.clients = some b.dest then some ((aload u ra.mailbox).getD [] ++ [b])
+        else aload u ra.mailbox := by
+  have hra : (Agent.rest ra).WF := hwf.2 _ (aload_mem i m.children _ h)
+  have hmatch : ∀ u, u ∈ ra.matching cfg b.dest ↔ aload u ra.clients = some b.dest := by
+    intro u
+    simp only [Rest.matching, hall, rangeVisit_all, List.mem_map, List.mem_filter, decide_eq_true_eq]
+    rw [aload_eq_some_iff u b.dest ra.clients hra.1]
+    constructor
+    · rintro ⟨c, ⟨hc, hd⟩, rfl⟩; rw [← hd]; exact hc
+    · intro hm; exact ⟨(u, b.dest), ⟨hm, rfl⟩, rfl⟩
+  have hnd : (ra.matching cfg b.dest).Nodup := by
+    simp only [Rest.matching, hall, rangeVisit_all]
+    exact List.Nodup.sublist ((List.filter_sublist).map _) hra.1
+  refine ⟨(ra.receive cfg b).1, ?_, rfl, ?_⟩
+  · simp only [Mux.deliver, Mux.child, deliverChildren_child]
+    have : aload i m.children = some (.rest ra) := h
+    rw [this]
+    simp only [Option.map_some, Agent.receive]
+    split
+    · rfl
+    · rename_i hno
+      -- nobody matches: receiving would not have changed anything
+      have hnil : ra.matching cfg b.dest = [] := by
+        cases hm : ra.matching cfg b.dest with
+        | nil => rfl
+        | cons u t =>
+          exfalso; apply hno
+          have hu : u ∈ ra.matching cfg b.dest := by rw [hm]; simp
+          have := (hmatch u).mp hu
+          have hmem := aload_mem u ra.clients _ this
+          simp only [Agent.endpoints, Rest.endpoints, hall, rangeVisit_all, bagContains, List.any_eq_true,
+            List.mem_map]
+          exact ⟨b.dest, ⟨(u, b.dest), hmem, rfl⟩, by simp⟩
+      simp [Rest.receive, hnil]
+  · intro u
+    simp only [Rest.receive]
+    rw [aload_foldl_put b _ hnd u]
+    by_cases hu : u ∈ ra.matching cfg b.dest
+    · simp [hu, (hmatch u).mp hu]
+    · have : ¬ aload u ra.clients = some b.dest := fun h => hu ((hmatch u).mpr h)
+      simp [hu, this]
+
 /-! ## Part E — every interleaving of deliveries and fetches on one mailbox -/
 
 def crit : Thr → Bool
